@@ -278,13 +278,16 @@ func (m *C16) AfterTx(e *eng.Engine, t *eng.TxRec) {
 				for _, s := range r.Iris {
 					got[s] = true
 				}
-				if len(got) != len(newOnes) {
+				if len(t.Msgs) == 1 && len(got) != len(newOnes) {
 					e.Violate("C16", "attest-response-iris", fmt.Sprintf("%s: Attest response lists %d new IRIs, %d are new", where, len(got), len(newOnes)))
 				}
 			}
 		case *data.MsgRegisterResolver:
 			m.regChecks++
 			rs := pre.Resolvers[x.ResolverId]
+			if rs == nil && len(t.Msgs) > 1 {
+				rs = post.Resolvers[x.ResolverId] // defined earlier in the same transaction (resolvers never change)
+			}
 			if rs == nil {
 				e.Violate("C16", "register-unknown-resolver", fmt.Sprintf("%s: RegisterResolver succeeded for unknown resolver %d", where, x.ResolverId))
 			} else if len(rs.Manager) != 0 && obs.Addr(rs.Manager) != x.Signer {
